@@ -3,6 +3,7 @@ CONSTANTS
   Sessions = {"L1", "M1", "M2"}
   Legacy = {"L1"}
   InitOn = {"L1", "M1"}
+  InitSub = {}
   Kinds = {"tools", "prompts"}
   NotifOf <- NotifStd
   Uris = {"u1"}
@@ -22,5 +23,6 @@ CONSTANTS
   MinSteps = 10
   MaxSteps = 22
   Bias = TRUE
+  GenOps = {"change", "tchange", "updated", "connect", "close", "subscribe", "unsubscribe", "list", "tick", "hold", "release"}
 INVARIANTS Export
 CHECK_DEADLOCK FALSE
